@@ -511,11 +511,19 @@ func (g *gen) request(o reqOpts, seq int) *reqSpec {
 	head := sb.String()
 	rs.Raw = append([]byte(head), bodyRaw...)
 	rs.HeadLen = len(head)
-	rs.Text = head
+	rs.Text = clipText(head)
 	rs.BodyLen = len(body)
 	rs.Close = o.close
 	rs.Feat = strings.Join(dedup(feat), ",")
 	return rs
+}
+
+// clipText bounds the copy of a head kept for witnesses (the case itself is replayed from seed and index).
+func clipText(s string) string {
+	if len(s) > 700 {
+		return s[:700] + fmt.Sprintf("...(%d more bytes)", len(s)-700)
+	}
+	return s
 }
 
 func dedup(xs []string) []string {
@@ -715,7 +723,7 @@ func (g *gen) response(o respOpts, seq int) *respSpec {
 	head := sb.String()
 	raw = append(raw, head...)
 	raw = append(raw, bodyRaw...)
-	ps.Status, ps.Raw, ps.Text, ps.BodyLen, ps.BodyMode = status, raw, head, len(body), mode
+	ps.Status, ps.Raw, ps.Text, ps.BodyLen, ps.BodyMode = status, raw, clipText(head), len(body), mode
 	if status/100 == 3 {
 		feat = append(feat, fmt.Sprint(status))
 	}
@@ -871,9 +879,12 @@ func genCase(r *core.RNG, small bool) *caseSpec {
 			o.atHead = true
 		}
 		ps := g.response(o, j)
-		if ps.MustClose || rq.Close {
+		if ps.MustClose {
 			// what the origin does after an answer that ends the connection
 			ps.OriginAction = r.PickStr("close", "closewrite")
+		} else if rq.Close {
+			// an origin may also leave it to its peer to act on the request's close option
+			ps.OriginAction = r.PickStr("close", "closewrite", "")
 		}
 		c.Resps = append(c.Resps, ps)
 	}
